@@ -40,7 +40,7 @@ def ctx(name):
 
 
 FAMS = {"exact": 1, "matern_ard": 2, "fixednoise": 1, "fixednoise_learn": 1, "multitask": 1, "kiss": 1}
-FAMS_THOROUGH = dict(FAMS, sumprod=1, linearmean=1, zeromean=1, multitask_r0=1, matern05=1, matern25_ard=2)
+FAMS_THOROUGH = dict(FAMS, fwdkw=1, sumprod=1, linearmean=1, zeromean=1, multitask_r0=1, matern05=1, matern25_ard=2)
 
 
 def cells(tier, seed):
@@ -55,6 +55,10 @@ def cells(tier, seed):
     for fam in ("exact", "fixednoise_learn"):
         for q, post in itertools.product([1, 2], ["default", "fpv"]):
             out.append({"fam": fam, "mb": [], "fbp": "none", "q": q, "pre": "default", "post": post, "depth": 2, "form": "vec"})
+            out.append({"fam": fam, "mb": [2], "fbp": "unbatched_inputs", "q": q, "pre": "default", "post": post, "depth": 2})
+    for q, post, fbp in itertools.product([1, 2], ["default", "fpv"], ["none", "per"]):
+        # a model whose forward() takes a keyword argument that changes the prior: the same argument is given to get_fantasy_model
+        out.append({"fam": "fwdkw", "mb": [], "fbp": fbp, "q": q, "pre": "default", "post": post, "depth": 2})
     if tier == "thorough":
         # deeper and wider: chains of four fantasies, three fantasy points, more kernels / means, a rank-2 model batch, eager / non-lazy kernels
         have = {util.jdump(c) for c in out}
@@ -90,10 +94,13 @@ def build(cell, seed, X, y, noise, mb):
     return m
 
 
+FWD_KW = {"fwdkw": {"scale": 0.8}}   # family -> keyword arguments given to every call of the model (and to get_fantasy_model)
+
+
 def predict(model, Xs, c):
     with ctx(c):
         torch.manual_seed(1234)
-        out = model(Xs)
+        out = model(Xs, **FWD_KW.get(getattr(model, "fam", None), {}))
         return out.mean.detach().clone(), out.covariance_matrix.detach().clone()
 
 
@@ -101,7 +108,8 @@ def dense_parts(ref, Xall, yall):
     """(K+S), (y-m) of a fresh model on the full data, evaluated eagerly in a clean context"""
     ref.eval()
     with torch.no_grad():
-        prior = ref.forward(Xall) if not isinstance(Xall, (list, tuple)) else ref.forward(*Xall)
+        kw = FWD_KW.get(ref.fam, {})
+        prior = ref.forward(Xall, **kw) if not isinstance(Xall, (list, tuple)) else ref.forward(*Xall, **kw)
         marg = ref.likelihood(prior, Xall)
         KS = marg.covariance_matrix
         resid = yall.reshape(*yall.shape[: yall.dim() - (2 if ref.fam.startswith("multitask") else 1)], -1) - marg.mean.reshape(*KS.shape[:-1])
@@ -193,7 +201,7 @@ def run_cell(cell, seed):
         before_pred = predict(src, Xs, cell["post"])
         before_digest = cache_snapshot(src)
         before_params = {k: v.detach().clone() for k, v in list(src.named_parameters()) + list(src.named_buffers())}
-        fb = () if fbp == "none" else (3,)
+        fb = () if fbp in ("none", "unbatched_inputs") else (3,)
         cur, Xall, yall, nall = src, X, y, noise
         full_b = mb
         sig = "ok"
@@ -201,18 +209,22 @@ def run_cell(cell, seed):
             qq = q if level == 1 else 1
             tb = fb + mb if level == 1 else full_b  # target batch
             ib = mb if (level == 1 and fbp == "shared") else tb  # input batch
+            if level == 1 and fbp == "unbatched_inputs":
+                ib = ()  # fantasy inputs without the model's batch dimensions (q x d), targets with them (b x q)
             Xf = util.rand(g, *ib, qq, d)
             yf = util.randn(g, *tb, qq, 2) if mt else util.randn(g, *tb, qq)
             kw = {}
             nf = None
             if fam.startswith("fixednoise"):
-                nf = 0.05 + 0.2 * util.rand(g, *ib, qq)  # noise belongs to the input locations (shared inputs => shared noise)
+                # noise belongs to the input locations (shared inputs => shared noise); with un-batched inputs for a batched model it is given
+                # per batch element (the un-batched form is refused by FixedNoiseGaussianLikelihood.get_fantasy_likelihood)
+                nf = 0.05 + 0.2 * util.rand(g, *(tb if fbp == "unbatched_inputs" else ib), qq)
                 kw["noise"] = nf
             f2 = dict(feats, level=level)
             try:
                 with ctx(cell["post"]):
                     # d = 1 shorthand: fantasy inputs given as a vector of length q (the library adds the last dimension)
-                    fm = cur.get_fantasy_model(Xf.squeeze(-1) if cell.get("form") == "vec" else Xf, yf, **kw)
+                    fm = cur.get_fantasy_model(Xf.squeeze(-1) if cell.get("form") == "vec" else Xf, yf, **kw, **FWD_KW.get(fam, {}))
                 ops += 1
             except Exception as e:
                 fails.append({"sub": "get_fantasy_model", "symptom": util.exc_str(e), "detail": f"level={level} Xf{tuple(Xf.shape)} yf{tuple(yf.shape)}", "features": f2})
@@ -236,6 +248,10 @@ def run_cell(cell, seed):
                 want = predict(ref, Xs, cell["post"])
                 ops += 2
                 for name, a, b in zip(("mean", "covariance"), got, want):
+                    if tuple(a.shape) != tuple(b.shape):
+                        fails.append({"sub": "fantasy-vs-scratch", "symptom": f"fantasy {name} has shape {tuple(a.shape)}, the model trained on the "
+                                      f"concatenated data gives {tuple(b.shape)}", "detail": f"level={level}", "features": f2})
+                        continue
                     try:
                         b = b.expand(a.shape) if a.dim() >= b.dim() else b
                     except Exception:
